@@ -58,6 +58,11 @@ class Ctx:
         self.workdir = workdir
         self.second = tuple(second)
         self.tier = tier
+        self.known_counts = {}
+
+    def cap(self, qid):
+        """all-SAT model cap: every listed known finding of the obligation plus a few new ones"""
+        return self.known_counts.get(qid.split('[')[0], 0) + 8
 
     def new_exec(self, extra_models=()):
         return Exec(self.mir, list(extra_models) + BASE_MODELS)
@@ -67,7 +72,7 @@ class Ctx:
         ob.feasibility_checks = ex.stats['feasibility_checks']
         ob.panic_edges = ex.stats['panic_edges_cut']
         ob.functions = sorted(ex.stats['inlined_fns'].keys())
-        ob.stubs = sorted(ex.stats['models_used'].keys())
+        ob.stubs = sorted(set(M.model_name(ex, p) for p in ex.stats['models_used'].keys()))
         ob.defs = list(ex.defs)
 
     def check_classes(self, ob):
@@ -116,6 +121,13 @@ def escape_reference(c, surr):
     return alts
 
 
+def exec_escape(ctx, c, surr):
+    ex = ctx.new_exec()
+    fn = ctx.mir.one_fn(r'^grapheme::<impl at [^>]*>::escape$')
+    st = State(pc=[valid_char(c)])
+    return ex, ex.run_fn(st, fn, [st.ref(Opaque('self')), c, surr])
+
+
 @guarded
 def q11(ctx):
     """Q11: Grapheme::escape(c, use_surrogate_pairs) == reference escape text, all c, both flag values"""
@@ -125,11 +137,8 @@ def q11(ctx):
     ob.classes_expected = ['ascii', 'unicode_escape', 'surrogate_pair']
     c = z3.BitVec('c', 32)
     surr = z3.Bool('surr')
-    ex = ctx.new_exec()
-    fn = ctx.mir.one_fn(r'^grapheme::<impl at [^>]*>::escape$')
-    st = State(pc=[valid_char(c)])
     t0 = time.time()
-    outs = ex.run_fn(st, fn, [st.ref(Opaque('self')), c, surr])
+    ex, outs = exec_escape(ctx, c, surr)
     ctx.finish(ob, ex, t0)
     ob.paths = len(outs)
     alts = escape_reference(c, surr)
@@ -147,8 +156,65 @@ def q11(ctx):
         ob.classes_seen[cls] = ob.classes_seen.get(cls, 0) + 1
         bads.append(z3.And(*o.st.pc, z3.Not(eq_alts(list(items), alts))))
     ctx.check_classes(ob)
-    ob.verdict = decide('Q11', [valid_char(c)] + ob.defs, z3.Or(*bads), [c, surr], all_sat=True, max_models=64,
-                        second=ctx.second, workdir=ctx.workdir)
+    ob.verdict = decide('Q11', [valid_char(c)] + ob.defs, z3.Or(*bads), [c, surr], all_sat=True, max_models=ctx.cap('Q11'),
+                        second=ctx.second, workdir=ctx.workdir, second_timeout_s=getattr(ctx, 'second_timeout', 60))
+    return ob
+
+
+@guarded
+def q11s(ctx, n, exclude=()):
+    """Q11s: escape_non_ascii_chars' closure on a string of n code points == concatenation of the per-code-point escapes"""
+    ob = Obligation('Q11s[n=%d]' % n, q11s.__doc__)
+    ob.domain = 'string of %d code points, every scalar value each; use_surrogate_pairs: bool' % n
+    ob.bound = 'strings of exactly %d code points' % n
+    cs = [z3.BitVec('c%d' % i, 32) for i in range(n)]
+    surr = z3.Bool('surr')
+    ex = ctx.new_exec()
+    fn = ctx.mir.one_fn(r'^grapheme::<impl at [^>]*>::escape_non_ascii_chars::\{closure#0\}$')
+    body = ctx.mir.fns[fn]
+    names = {}
+    for nm, pl in body.debug.items():
+        m = re.match(r'\(\*\(\(\*_1\)\.(\d+): &[\w:]+\)\)$', pl)
+        if m:
+            names[int(m.group(1))] = nm
+    if sorted(names.values()) != ['self', 'use_surrogate_pairs']:
+        raise Inconclusive('unexpected captures %s' % names)
+    assume = [valid_char(c) for c in cs]
+    # per-code-point counterexamples are reported by Q11; here only NEW (compositional) failures count
+    for m in exclude:
+        for c in cs:
+            assume.append(z3.Not(z3.And(c == BV(m['c'], 32), surr == z3.BoolVal(m['surr']))))
+    if exclude:
+        ob.domain += '; minus the %d per-code-point counterexample(s) already reported by Q11' % len(exclude)
+    st = State(pc=list(assume))
+    vals = {'self': st.ref(Opaque('self')), 'use_surrogate_pairs': st.ref(surr)}
+    env = TupV([vals[names[i]] for i in range(2)], [names[i] for i in range(2)])
+    t0 = time.time()
+    outs = ex.run_fn(st, fn, [st.ref(env), st.ref(SymStr(cs))])
+    ctx.finish(ob, ex, t0)
+    ob.paths = len(outs)
+    refs = [escape_reference(c, surr) for c in cs]
+    bads = []
+    for o in outs:
+        if o.panic:
+            bads.append(z3.And(*o.st.pc))
+            continue
+        items = list(as_str(o.st, o.val).items)
+
+        def splits(pos, i):
+            if i == n:
+                return z3.BoolVal(pos == len(items))
+            ds = []
+            for g, ref in refs[i]:
+                L = len(ref)
+                if pos + L <= len(items):
+                    ds.append(z3.And(g, *[a == b for a, b in zip(items[pos:pos + L], ref)], splits(pos + L, i + 1)))
+            return z3.Or(*ds) if ds else z3.BoolVal(False)
+        bads.append(z3.And(*o.st.pc, z3.Not(splits(0, 0))))
+        k = 'len%d' % len(items)
+        ob.classes_seen[k] = ob.classes_seen.get(k, 0) + 1
+    ob.verdict = decide(ob.qid, assume + ob.defs, z3.Or(*bads), cs + [surr], all_sat=True, max_models=ctx.cap('Q11s'),
+                        second=ctx.second, workdir=ctx.workdir, second_timeout_s=getattr(ctx, 'second_timeout', 60), block_vars=cs)
     return ob
 
 
@@ -183,8 +249,8 @@ def q09(ctx, which):
     ob.classes_seen['table_term'] = 1 if n_ranges > 0 else 0
     ctx.check_classes(ob)
     oracle = in_ranges(c, ctx.oracle[which])
-    ob.verdict = decide(ob.qid, [valid_char(c)] + ob.defs, f != oracle, [c], all_sat=True, max_models=200,
-                        second=ctx.second, workdir=ctx.workdir)
+    ob.verdict = decide(ob.qid, [valid_char(c)] + ob.defs, f != oracle, [c], all_sat=True, max_models=ctx.cap(ob.qid),
+                        second=ctx.second, workdir=ctx.workdir, second_timeout_s=getattr(ctx, 'second_timeout', 60))
     return ob
 
 
@@ -225,8 +291,21 @@ def token_class(items):
     return 'literal'
 
 
+def exec_ladder(ctx, cs, flags, per_char, assume=None):
+    ex = ctx.new_exec()
+    st = State(pc=list(assume) if assume is not None else [valid_char(c) for c in cs])
+    byname = dict(zip(FLAG_NAMES, flags))
+    if per_char:
+        fn = ctx.mir.one_fn(r'convert_to_char_classes::\{closure#0\}::\{closure#0\}$')
+        env = closure_env_from_debug(ctx.mir.fns[fn], st, byname)
+        return ex, ex.run_fn(st, fn, [st.ref(env), cs[0]])
+    fn = ctx.mir.one_fn(r'convert_to_char_classes::\{closure#0\}$')
+    env = closure_env_from_debug(ctx.mir.fns[fn], st, byname)
+    return ex, ex.run_fn(st, fn, [st.ref(env), st.ref(SymStr(cs))])
+
+
 @guarded
-def q03a(ctx, n=1):
+def q03a(ctx, n=1, exclude=()):
     """Q03a/c: per-code-point class substitution == documented precedence over the regex crate's classes"""
     qid = 'Q03a' if n == 1 else 'Q03c[n=%d]' % n
     ob = Obligation(qid, q03a.__doc__ + (' (string of %d code points through the enclosing closure)' % n if n > 1 else ''))
@@ -235,18 +314,14 @@ def q03a(ctx, n=1):
     ob.classes_expected = ['\\d', '\\w', '\\s', '\\D', '\\W', '\\S', 'literal'] if n == 1 else []
     cs = [z3.BitVec('c%d' % i, 32) for i in range(n)]
     flags = [z3.Bool(nm) for nm in FLAG_NAMES]
-    ex = ctx.new_exec()
-    st = State(pc=[valid_char(c) for c in cs])
-    byname = dict(zip(FLAG_NAMES, flags))
+    assume = [valid_char(c) for c in cs]
+    for m in exclude:
+        for c in cs:
+            assume.append(z3.Not(z3.And(c == BV(m['c0'], 32), *[f == z3.BoolVal(m[nm]) for f, nm in zip(flags, FLAG_NAMES)])))
+    if exclude:
+        ob.domain += '; minus the %d per-code-point counterexample(s) already reported by Q03a' % len(exclude)
     t0 = time.time()
-    if n == 1:
-        fn = ctx.mir.one_fn(r'convert_to_char_classes::\{closure#0\}::\{closure#0\}$')
-        env = closure_env_from_debug(ctx.mir.fns[fn], st, byname)
-        outs = ex.run_fn(st, fn, [st.ref(env), cs[0]])
-    else:
-        fn = ctx.mir.one_fn(r'convert_to_char_classes::\{closure#0\}$')
-        env = closure_env_from_debug(ctx.mir.fns[fn], st, byname)
-        outs = ex.run_fn(st, fn, [st.ref(env), st.ref(SymStr(cs))])
+    ex, outs = exec_ladder(ctx, cs, flags, per_char=(n == 1), assume=assume)
     ctx.finish(ob, ex, t0)
     ob.paths = len(outs)
     refs = [ladder_reference(ctx, c, flags) for c in cs]
@@ -273,8 +348,8 @@ def q03a(ctx, n=1):
                 return z3.Or(*ds) if ds else z3.BoolVal(False)
             bads.append(z3.And(*o.st.pc, z3.Not(splits(0, 0))))
     ctx.check_classes(ob)
-    ob.verdict = decide(ob.qid, [valid_char(c) for c in cs] + ob.defs, z3.Or(*bads), cs + flags, all_sat=True, max_models=50,
-                        second=ctx.second, workdir=ctx.workdir, block_vars=cs)
+    ob.verdict = decide(ob.qid, assume + ob.defs, z3.Or(*bads), cs + flags, all_sat=True, max_models=ctx.cap('Q03a' if n == 1 else 'Q03c'),
+                        second=ctx.second, workdir=ctx.workdir, second_timeout_s=getattr(ctx, 'second_timeout', 60), block_vars=cs)
     return ob
 
 
@@ -307,7 +382,7 @@ def q03b(ctx):
         k = 'true' if z3.is_true(z3.simplify(r)) else ('false' if z3.is_false(z3.simplify(r)) else 'term')
         ob.classes_seen[k] = ob.classes_seen.get(k, 0) + 1
         bads.append(z3.And(*o.st.pc, any_flag, z3.Not(r)))
-    ob.verdict = decide('Q03b', ob.defs, z3.Or(*bads), vars_, second=ctx.second, workdir=ctx.workdir)
+    ob.verdict = decide('Q03b', ob.defs, z3.Or(*bads), vars_, second=ctx.second, workdir=ctx.workdir, second_timeout_s=getattr(ctx, 'second_timeout', 60))
     return ob
 
 
@@ -358,6 +433,13 @@ def orbit_rep(ctx, x):
     return table_tree(x, [(k, BV(rep, 32)) for k, rep in ctx.oracle['orbit']], x)
 
 
+def exec_lower(ctx, c):
+    ex = ctx.new_exec([(P(r'impl str>::to_lowercase$'), make_to_lowercase_model(ctx))])
+    fn = ctx.mir.one_fn(r'convert_for_case_insensitive_matching::\{closure#0\}$')
+    st = State(pc=[valid_char(c)])
+    return ex, fn, ex.run_fn(st, fn, [st.ref(TupV(())), st.ref(SymStr([c]))])
+
+
 @guarded
 def q04(ctx, idempotence=False):
     """Q04: lower-casing closure on a one-code-point test case stays in the regex crate's simple-folding orbit"""
@@ -367,11 +449,8 @@ def q04(ctx, idempotence=False):
     ob.bound = 'test cases of exactly one code point (str::to_lowercase is a table stub for that length)'
     ob.classes_expected = ['lowered', 'kept']
     c = z3.BitVec('c', 32)
-    ex = ctx.new_exec([(P(r'impl str>::to_lowercase$'), make_to_lowercase_model(ctx))])
-    fn = ctx.mir.one_fn(r'convert_for_case_insensitive_matching::\{closure#0\}$')
-    st = State(pc=[valid_char(c)])
     t0 = time.time()
-    outs = ex.run_fn(st, fn, [st.ref(TupV(())), st.ref(SymStr([c]))])
+    ex, fn, outs = exec_lower(ctx, c)
     bads = []
     paths = len(outs)
     for o in outs:
@@ -401,8 +480,8 @@ def q04(ctx, idempotence=False):
     ctx.finish(ob, ex, t0)
     ob.paths = paths
     ctx.check_classes(ob)
-    ob.verdict = decide(ob.qid, [valid_char(c)] + ob.defs, z3.Or(*bads), [c], all_sat=True, max_models=2000,
-                        second=ctx.second, workdir=ctx.workdir, timeout_s=300)
+    ob.verdict = decide(ob.qid, [valid_char(c)] + ob.defs, z3.Or(*bads), [c], all_sat=True, max_models=ctx.cap(ob.qid),
+                        second=ctx.second, workdir=ctx.workdir, second_timeout_s=getattr(ctx, 'second_timeout', 60), timeout_s=300)
     return ob
 
 
@@ -421,6 +500,32 @@ def make_gc_models(ctx):
             (P(r'^GeneralCategory::is_other$'), m_is_other)]
 
 
+def exec_split(ctx, cs, assume):
+    fields = ctx.mir.structs.get('RegExpConfig')
+    cfg = TupV([z3.BitVec(f, 32) if f.startswith('minimum_') else z3.Bool(f) for f in fields], fields, 'RegExpConfig')
+    ex = ctx.new_exec(make_gc_models(ctx))
+    fn = ctx.mir.one_fn(r'^cluster::<impl at [^>]*>::from::\{closure#0\}$')
+    st = State(pc=list(assume))
+    env = TupV([st.ref(cfg)])
+    return ex, ex.run_fn(st, fn, [st.ref(env), st.ref(SymStr(cs))])
+
+
+def split_units(st, val):
+    """the splitter's result as a list of units (each a tuple of code point terms)"""
+    v = deref(st, val)
+    if not isinstance(v, ListV):
+        raise Inconclusive('splitter returned %r' % (v,))
+    units = []
+    for g in v.items:
+        g = deref(st, g)
+        chars = deref(st, g.get('chars') if g.names else g.fields[0])
+        if not isinstance(chars, ListV):
+            raise Inconclusive('Grapheme.chars is %r' % (chars,))
+        for unit in chars.items:
+            units.append(tuple(as_str(st, unit).items))
+    return units
+
+
 @guarded
 def q07g(ctx, n, realisable):
     """Q07g: the grapheme splitter never keeps a multi-code-point unit that contains a backslash"""
@@ -429,17 +534,11 @@ def q07g(ctx, n, realisable):
         ('; code points 2..n restricted to grapheme extenders that are not marks (so that the unit is one extended grapheme cluster)' if realisable else '')
     ob.bound = 'units of exactly %d code points' % n
     cs = [z3.BitVec('u%d' % i, 32) for i in range(n)]
-    fields = ctx.mir.structs.get('RegExpConfig')
-    cfg = TupV([z3.BitVec(f, 32) if f.startswith('minimum_') else z3.Bool(f) for f in fields], fields, 'RegExpConfig')
-    ex = ctx.new_exec(make_gc_models(ctx))
-    fn = ctx.mir.one_fn(r'^cluster::<impl at [^>]*>::from::\{closure#0\}$')
     assume = [valid_char(x) for x in cs]
     if realisable:
         assume += [in_ranges(x, ctx.oracle['ext_nonmark']) for x in cs[1:]]
-    st = State(pc=list(assume))
     t0 = time.time()
-    env = TupV([st.ref(cfg)])
-    outs = ex.run_fn(st, fn, [st.ref(env), st.ref(SymStr(cs))])
+    ex, outs = exec_split(ctx, cs, assume)
     ctx.finish(ob, ex, t0)
     ob.paths = len(outs)
     bads = []
@@ -472,8 +571,8 @@ def q07g(ctx, n, realisable):
             bads.append(z3.And(*o.st.pc, z3.Not(z3.And(*[a == b for a, b in zip(total, cs)]))))
     ob.classes_expected = ['whole'] if n == 1 else ['whole', 'split']
     ctx.check_classes(ob)
-    ob.verdict = decide(ob.qid, assume + ob.defs, z3.Or(*bads), cs, all_sat=realisable, max_models=400,
-                        second=ctx.second, workdir=ctx.workdir)
+    ob.verdict = decide(ob.qid, assume + ob.defs, z3.Or(*bads), cs, all_sat=realisable, max_models=ctx.cap('Q07g'),
+                        second=ctx.second, workdir=ctx.workdir, second_timeout_s=getattr(ctx, 'second_timeout', 60))
     return ob
 
 
@@ -532,7 +631,7 @@ def q07t(ctx, which):
             conds.append(v1 == q if f == field else v1 == v0)
         bads.append(z3.And(*o.st.pc, z3.Not(z3.And(*conds))))
     ctx.check_classes(ob)
-    ob.verdict = decide(ob.qid, ob.defs, z3.Or(*bads), [q] + vals, second=ctx.second, workdir=ctx.workdir)
+    ob.verdict = decide(ob.qid, ob.defs, z3.Or(*bads), [q] + vals, second=ctx.second, workdir=ctx.workdir, second_timeout_s=getattr(ctx, 'second_timeout', 60))
     return ob
 
 
@@ -636,7 +735,7 @@ def q10(ctx):
     ob.functions = sorted(set(ob.functions) | set(ex2.stats['inlined_fns']))
     ob.paths = npaths
     ob.classes_seen['pairs'] = len(setters) * (len(setters) + 1) // 2
-    ob.verdict = decide('Q10', ob.defs, z3.Or(*bads), vars_, logic='QF_BV', second=ctx.second, workdir=ctx.workdir)
+    ob.verdict = decide('Q10', ob.defs, z3.Or(*bads), vars_, logic='QF_BV', second=ctx.second, workdir=ctx.workdir, second_timeout_s=getattr(ctx, 'second_timeout', 60))
     return ob
 
 
@@ -660,3 +759,38 @@ def same_cases(a, b):
         if len(x.items) != len(y.items) or not all(p.eq(q) for p, q in zip(x.items, y.items)):
             return False
     return True
+
+
+# =========================================================================== translator validation
+def concrete_eval(ctx, kind, inp):
+    """run the encoding of one function on CONCRETE inputs; -> python value comparable with the native result"""
+    def one(outs):
+        good = [o for o in outs]
+        if len(good) != 1:
+            raise Inconclusive('%d paths on concrete input' % len(good))
+        return good[0]
+    if kind == 'escape_char':
+        ex, outs = exec_escape(ctx, BV(inp['c'], 32), z3.BoolVal(inp['surrogates']))
+        o = one(outs)
+        return cps(as_str(o.st, o.val).items)
+    if kind in ('is_digit', 'is_word', 'is_space'):
+        ex = ctx.new_exec()
+        st = State()
+        v = concrete(ex.expand(run_predicate(ctx, ex, kind, BV(inp['c'], 32), st)))
+        if v is None:
+            raise Inconclusive('predicate did not evaluate on a concrete input')
+        return bool(v)
+    if kind == 'class_tokens':
+        s = inp['s']
+        ex, outs = exec_ladder(ctx, [BV(x, 32) for x in s], [z3.BoolVal(b) for b in inp['flags']], per_char=False)
+        o = one(outs)
+        return cps(as_str(o.st, o.val).items)
+    if kind == 'lower':
+        ex, fn, outs = exec_lower(ctx, BV(inp['c'], 32))
+        o = one(outs)
+        return cps(as_str(o.st, o.val).items)
+    if kind == 'split':
+        ex, outs = exec_split(ctx, [BV(x, 32) for x in inp['s']], [])
+        o = one(outs)
+        return [cps(u) for u in split_units(o.st, o.val)]
+    raise Inconclusive('no concrete evaluator for ' + kind)
